@@ -26,11 +26,22 @@ func init() { All["C07"] = c07 }
 type stub struct {
 	name string
 	word []strategy.Action
+	free bool // emit exactly the word, however many snapshots there are
 }
 
 func (s *stub) Name() string { return s.name }
 func (s *stub) Compute(c <-chan *asset.Snapshot) <-chan strategy.Action {
 	out := make(chan strategy.Action)
+	if s.free {
+		go helper.Drain(c)
+		go func() {
+			defer close(out)
+			for _, a := range s.word {
+				out <- a
+			}
+		}()
+		return out
+	}
 	go func() {
 		defer close(out)
 		i := 0
@@ -51,6 +62,14 @@ func (s *stub) Report(c <-chan *asset.Snapshot) *helper.Report {
 }
 
 var actionAlphabet = []strategy.Action{strategy.Sell, strategy.Hold, strategy.Buy}
+
+func lensOf(words [][]strategy.Action) []int {
+	l := make([]int, len(words))
+	for i := range words {
+		l[i] = len(words[i])
+	}
+	return l
+}
 
 func decodeWord(code, n int) []strategy.Action {
 	w := make([]strategy.Action, n)
@@ -273,6 +292,16 @@ func c07Shapes() []c07Shape {
 		c07Shape{name: "stoploss", k: 1,
 			build: func(subs []strategy.Strategy, pct float64) strategy.Strategy {
 				return decorator.NewStopLossStrategy(subs[0], pct)
+			},
+			model: func(w [][]strategy.Action, c []float64, pct float64) []strategy.Action {
+				return stopLossModel(w[0], c, pct)
+			},
+			safe: stopLossSafe},
+		c07Shape{name: "stoploss (percentage set through the public field)", k: 1,
+			build: func(subs []strategy.Strategy, pct float64) strategy.Strategy {
+				s := decorator.NewStopLossStrategy(subs[0], 0.5)
+				s.Percentage = pct
+				return s
 			},
 			model: func(w [][]strategy.Action, c []float64, pct float64) []strategy.Action {
 				return stopLossModel(w[0], c, pct)
@@ -501,6 +530,87 @@ func c07(ctx *run.Ctx) {
 			}
 		})
 	}
+	// AllAndStrategies / AllSplitStrategies: one compound per ordered pair of
+	// distinct members, each voting over ITS pair.
+	ctx.Case("all-pairs", func(cc *run.Case) {
+		for rep := 0; rep < ctx.Pick(40, 400); rep++ {
+			k, n := cc.R.Range(2, 4), cc.R.Range(0, 40)
+			words := make([][]strategy.Action, k)
+			subs := make([]strategy.Strategy, k)
+			for i := range words {
+				words[i] = make([]strategy.Action, n)
+				for j := range words[i] {
+					words[i][j] = actionAlphabet[cc.R.Intn(3)]
+				}
+				subs[i] = &stub{name: fmt.Sprintf("stub%d", i), word: words[i]}
+			}
+			closes := gen.Field(gen.Bars(cc.R, gen.Walk, n), 'c')
+			ands, splits := strategy.AllAndStrategies(subs), strategy.AllSplitStrategies(subs)
+			if len(ands) != k*(k-1) || len(splits) != k*(k-1) {
+				cc.Viol("", fmt.Sprintf("AllAndStrategies / AllSplitStrategies over %d members returned %d / %d compounds, there are %d ordered pairs", k, len(ands), len(splits), k*(k-1)), nil)
+				return
+			}
+			idx := 0
+			for a := 0; a < k; a++ {
+				for b := 0; b < k; b++ {
+					if a == b {
+						continue
+					}
+					if got, want := runStrat(ands[idx], closesToSnaps(closes)), voteModel("and", [][]strategy.Action{words[a], words[b]}, n); !eqActions(got, want) {
+						cc.Viol("", fmt.Sprintf("AllAndStrategies(%d members)[%d] (members %d and %d): got %v, And over that pair gives %v", k, idx, a, b, got, want), map[string]any{"words": fmt.Sprint(words)})
+						return
+					}
+					if got, want := runStrat(splits[idx], closesToSnaps(closes)), splitModel(words[a], words[b]); !eqActions(got, want) {
+						cc.Viol("", fmt.Sprintf("AllSplitStrategies(%d members)[%d] (buy from %d, sell from %d): got %v, Split over that pair gives %v", k, idx, a, b, got, want), map[string]any{"words": fmt.Sprint(words)})
+						return
+					}
+					idx++
+				}
+			}
+			cc.Count("runs", int64(2*idx))
+			cc.Distinct(fmt.Sprintf("allpairs/%d", rep))
+		}
+	})
+	// Members that say less than the others (a custom strategy, a series shorter
+	// than one member's warm-up): the group speaks for as long as ALL members do.
+	ctx.Case("unequal-words", func(cc *run.Case) {
+		for rep := 0; rep < ctx.Pick(60, 600); rep++ {
+			k := cc.R.Range(2, 4)
+			words := make([][]strategy.Action, k)
+			subs := make([]strategy.Strategy, k)
+			shortest := 1 << 30
+			for i := range words {
+				words[i] = make([]strategy.Action, cc.R.Range(0, 30))
+				for j := range words[i] {
+					words[i][j] = actionAlphabet[cc.R.Intn(3)]
+				}
+				shortest = min(shortest, len(words[i]))
+				subs[i] = &stub{name: fmt.Sprintf("stub%d", i), word: words[i], free: true}
+			}
+			closes := gen.Field(gen.Bars(cc.R, gen.Walk, 40), 'c')
+			cut := make([][]strategy.Action, k)
+			for i := range cut {
+				cut[i] = words[i][:shortest]
+			}
+			for _, kind := range []string{"and", "or", "majority"} {
+				var s strategy.Strategy
+				switch kind {
+				case "and":
+					s = strategy.NewAndStrategy("g", subs...)
+				case "or":
+					s = strategy.NewOrStrategy("g", subs...)
+				default:
+					s = strategy.NewMajorityStrategyWith("g", subs)
+				}
+				if got, want := runStrat(s, closesToSnaps(closes)), voteModel(kind, cut, shortest); !eqActions(got, want) {
+					cc.Viol("", fmt.Sprintf("%s over members that emit %v actions: got %d actions %v, the vote over the positions all members cover gives %v", kind, lensOf(words), len(got), got, want), map[string]any{"words": fmt.Sprint(words)})
+					return
+				}
+			}
+			cc.Count("runs", 3)
+			cc.Distinct(fmt.Sprintf("unequal/%d", rep))
+		}
+	})
 	// MACD-RSI cannot take stubs (concrete field types): its expectation is
 	// computed from its two real sub-strategies run separately.
 	ctx.Case("macd-rsi", func(cc *run.Case) {
